@@ -431,6 +431,77 @@ def run_double(g, acc):
                                     if st == 'viol':
                                         acc.fail(dict(case, seed=acc.seed), msg)
     acc.sample({'kind': 'double', 'fam': g['fam'], 'sym': g['sym'], 'spec': g['spec'], 'pool': [p[0] for p in pool]})
+    run_double_stateful(g, loc, pool, acc)
+
+
+# stateful use of ONE DoublePepsTensor object: explicit-state BFS over its mutating API; after every step the lazy
+# tensordot and the fused form must agree, and both must equal those of a freshly built object with the same content
+
+def dpt_actions(loc):
+    cfg = loc.config
+    names = [n for n in loc.O if n != 'I'][:2]
+    acts = [('set_op:' + n, lambda d, n=n: d.set_operator_(loc.O[n])) for n in names]
+    acts += [('mul_op:' + names[0], lambda d: d.set_operator_(loc.O[names[0]], reset=False)),
+             ('del_op', lambda d: d.del_operator_()), ('fuse_layers', lambda d: d.fuse_layers())]
+    if cfg.sym.NSYM:
+        one = tuple(1 for _ in cfg.sym.zero())
+        acts += [('add_swaps:k4b0', lambda d: d.add_charge_swaps_(one, ['k4', 'b0'])), ('add_swaps:k1', lambda d: d.add_charge_swaps_(one, 'k1')),
+                 ('del_swaps', lambda d: d.del_charge_swaps_())]
+    return acts
+
+
+def run_double_stateful(g, loc, pool, acc):
+    label, A, B = pool[0]
+    acts = dpt_actions(loc)
+    amap = dict(acts)
+    depth = 3
+    xch = None
+    heavy = g['fam'] in ('spinful', 'tJ')
+    if heavy and g['spec'] != 'pure' and acc.tier == 'quick':
+        return
+    for hist in itertools.chain.from_iterable(itertools.product([a for a, _ in acts], repeat=d) for d in range(1, depth + 1)):
+        if len(hist) == 3 and (heavy or acc.tier == 'quick') and hist[1] != 'fuse_layers' and not (not heavy and hist[0].startswith(('set_op', 'add_swaps')) and hist[2].startswith('del')):
+            continue     # depth 3 in the quick tier: an observation (fuse_layers) in the middle, or set ... del patterns
+        acc.check_time()
+        case = {'kind': 'double_seq', 'fam': g['fam'], 'sym': g['sym'], 'spec': g['spec'], 'site': label, 'hist': list(hist), 'seed': acc.seed}
+        m = double_seq_case(loc, A, B, hist, amap, acc.seed)
+        acc.states += 1
+        acc.transitions += 1
+        acc.ev(key=('ds', repr(case)), nontrivial=True, outcome=('ds', hist[-1], m is None))
+        acc.cnt['double_sequences'] += 1
+        if m:
+            acc.fail(case, m)
+
+
+def double_seq_case(loc, A, B, hist, amap, seed):
+    d = fpeps.DoublePepsTensor(bra=B, ket=A, trans=(1, 2, 3, 0))
+    for a in hist:
+        st, r = TC.call(lambda: amap[a](d))
+        if st != 'ok':
+            return None      # an action the object refuses ends the sequence (not a property of this check)
+    fresh = fpeps.DoublePepsTensor(bra=B, ket=A, trans=(1, 2, 3, 0), op=d.op, swaps=dict(d.swaps))
+    sym = loc.config.sym
+    xch = [sym.zero()] if sym.NSYM else []
+    for o in loc.O.values():
+        if sym.NSYM:
+            xch += [tuple(o.n), tuple(sym.add_charges(o.n, signatures=(-1,)))]
+    b, (i0, i1) = boundary_vector(d, 0, 1, 'x01y', (seed, 'seq'), xch)
+    st1, R1 = TC.call(lambda: yastn.tensordot(d, b, axes=((0, 1), (i0, i1))))
+    st2, R2 = TC.call(lambda: yastn.tensordot(d.fuse_layers(), b, axes=((0, 1), (i0, i1))))
+    st3, R3 = TC.call(lambda: yastn.tensordot(fresh.fuse_layers(), b, axes=((0, 1), (i0, i1))))
+    if 'ok' not in (st1, st2, st3) and st1 == st2 == st3:
+        return None
+    if not (st1 == st2 == st3 == 'ok'):
+        return f"after {list(hist)}: lazy {st1}, fused {st2}, freshly built {st3}: {[r for s_, r in ((st1, R1), (st2, R2), (st3, R3)) if s_ != 'ok'][:1]}"
+    for what, X, Y in (('lazy tensordot vs fuse_layers()', R1, R2), ('fuse_layers() vs a freshly built object with the same operator and swaps', R2, R3)):
+        try:
+            legs = {i: yastn.legs_union(x, y) for i, (x, y) in enumerate(zip(X.get_legs(), Y.get_legs()))}
+        except YastnError as e:
+            return f"after {list(hist)}: {what}: result legs are inconsistent: {e}"
+        x, y = X.to_numpy(legs=legs), Y.to_numpy(legs=legs)
+        if x.shape != y.shape or (x.size and np.abs(x - y).max() > 1e-12 * max(1, np.abs(y).max())):
+            return f"after {list(hist)} on one DoublePepsTensor object: {what} differ (max diff {np.abs(x - y).max() if x.shape == y.shape else 'shape'})"
+    return None
 
 
 def double_case(loc, ket, bra, case, seed):
@@ -612,6 +683,11 @@ def replay(case):
         _, A, B = pool[case['site']]
         st, msg, _ = double_case(loc, A, A if case['bra_is_ket'] else B, case, case.get('seed', 0))
         return [msg] if st == 'viol' else []
+    if k == 'double_seq':
+        pool = site_tensor_pool(loc, case.get('seed', 0), (case['spec'],))
+        label, A, B = pool[0]
+        m = double_seq_case(loc, A, B, case['hist'], dict(dpt_actions(loc)), case.get('seed', 0))
+        return [m] if m else []
     if k == 'add':
         m, _ = add_case(loc, case)
         return [m] if m else []
